@@ -225,6 +225,30 @@ def blank_ident(P, R):
             from ..model import rel as _rel
             rels = [_rel(x, True) for x in disj]
             has_ident = any(is_var(r[0], ident_p) and r[1] == ('!=' if got_when_true else '==') for r in rels)
+            # the ident disjunct may be a local computed from the ident (`named = ident != NULL && ident[0] != 0`), or that
+            # conjunction written in place; it names somebody only if its first byte is tested
+            def first_byte2(l):
+                return isinstance(l, dict) and ((l.get('k') == 'idx' and is_var(l.get('base'), ident_p) and const_of(l.get('index')) == 0) or
+                                                (l.get('k') == 'un' and l.get('op') == '*' and is_var(l.get('e'), ident_p)))
+            nonempty = False
+            if got_when_true:
+                for x in disj:
+                    e = x
+                    if is_var(x) and x.get('sc') == 'local' and u.single_def(x['name']) and isinstance(u.single_def(x['name'])[1], dict):
+                        e = u.single_def(x['name'])[1]
+                    conj = []
+                    def flat2(y):
+                        if isinstance(y, dict) and y.get('k') == 'bin' and y.get('op') == '&&':
+                            flat2(y['l']); flat2(y['r'])
+                        else:
+                            conj.append(y)
+                    flat2(e)
+                    crels = [_rel(y, True) for y in conj]
+                    if any(is_var(r[0], ident_p) and r[1] == '!=' for r in crels):
+                        has_ident = True
+                        nonempty = nonempty or any(first_byte2(r[0]) and r[1] == '!=' and const_of(r[2]) == 0 for r in crels)
+            n += 1
+            R.ob('C03.GRD.3', nonempty, s, 'a delivered ident makes the user name known only if it is not empty (its first byte is tested)', key='blank-ident:empty-word')
             has_info = any(any(x.get('k') == 'mem' and x.get('rec') == core.REQ_REC and x['field'] in ufields for x in walk(r[0])) and r[1] == ('!=' if got_when_true else '==') for r in rels)
             n += 2
             R.ob('C03.GRD.3', has_ident and has_info and len(rels) == 2, s, 'without an ident, GOT_IDENT is chosen exactly when the user info has already arrived (%s)' % sx(c), key='blank-ident:known')
